@@ -83,6 +83,17 @@ def run(ctx, rep):
                                                       (name is None or on == 'raise:PolicyNotAuthorized:' + name))
             else:
                 ok = on == off            # PolicyNotRegistered / InvalidContextObject in both modes
+            # a scope mismatch is reported as InvalidScope whatever exception class the caller asked for
+            st = None
+            if isinstance(q['rule'], dict):
+                st = q['rule'].get('scope')
+            elif q['rule'] in sc['rules']:
+                st = dict((n, s_) for n, s_ in sc['registered']).get(q['rule'])
+            if st and isinstance(q['creds'], dict) and sc['enforce_scope']:
+                tscope = 'system' if (q['creds'].get('system') or q['creds'].get('system_scope')) else (
+                    'domain' if q['creds'].get('domain_id') else 'project')
+                if tscope not in st and not (off == 'deny' and on == 'raise:InvalidScope'):
+                    ok = False
             if on == 'deny':
                 ok = False
             if off.split(':')[:2] in (['raise', 'PolicyNotAuthorized'], ['raise', 'Custom'], ['raise', 'InvalidScope']):
